@@ -233,8 +233,8 @@ def check_find(pid, tier, seed):
 
 def mc_system(res, tier):
     """Bounded exploration of client sessions of TzRs.tla: all interleavings of API calls over small menus."""
-    consts = {k: f"<- {k}C" for k in ("Zones", "Instants", "LocalTimes", "Files", "TzValues", "Dirs", "Vfs")}
-    consts["MaxSteps"] = 3 if tier == "quick" else 4
+    consts = {k: f"<- {k}C" for k in ("Zones", "Instants", "LocalTimes", "Files", "TzValues", "Dirs", "Vfs", "Rules", "TzStrings", "Nanos")}
+    consts["MaxSteps"] = 2 if tier == "quick" else 3
     res.add_mc(run_mc("MC_TzRs", consts, invariants=("Invariants",), workers=C.NCPU, timeout=6000, xmx="12g", extra_cfg="PROPERTY FrameOK\nPROPERTY BufFrame\n"))
 
 
@@ -873,7 +873,7 @@ def selftest():
         results.append(dict(op=e["op"], index=i, rejected_at=sorted(new_bad), ok=(i in new_bad)))
         os.remove(p)
     witnesses = {}
-    consts = {k: f"<- {k}C" for k in ("Zones", "Instants", "LocalTimes", "Files", "TzValues", "Dirs", "Vfs")}
+    consts = {k: f"<- {k}C" for k in ("Zones", "Instants", "LocalTimes", "Files", "TzValues", "Dirs", "Vfs", "Rules", "TzStrings", "Nanos")}
     consts["MaxSteps"] = 3
     for w in ("W_Fold", "W_Gap", "W_BufStale", "W_Reads2", "W_Project", "W_Refused"):
         try:
